@@ -263,9 +263,10 @@ Definition C16_attachments_marker (c : dcfg) (k : dcache) (parent : json) (evs :
   end.
 
 (* ---------- clause 3b: a null status in the response must not materialise as a stored null ---------- *)
-(* SetNestedField(obj, nil-map, "status") puts an explicit null under "status" when the target had
-   no status at all; on a resource without status subresource the metadata update stores it, and
-   unstructured.NestedMap then fails on every later sync of that object *)
+(* regression guard.  Before the repair (/repo 985bceb) SetNestedField(obj, nil-map, "status") put an
+   explicit null under "status" when the target had no status at all; on a resource without status
+   subresource the metadata update stored it, and unstructured.NestedMap then failed on every later
+   sync of that object.  The write is now skipped when there is no status to write. *)
 Definition has_status_key (o : json) : bool := ahas "status" (obj_map o).
 
 Definition C16_no_explicit_null_status (c : dcfg) (parent : json) (evs : list ev) : option string :=
